@@ -173,6 +173,11 @@ func main() {
 		for _, g := range gs {
 			fmt.Printf("%s  %s\n    via %s\n", p.Pos(g.Pos), g.String(), strings.Join(g.Chain, " > "))
 		}
+		if fn := p.Func(*dumpGuards); fn != nil {
+			for i := 0; i < fn.Signature.Results().Len(); i++ {
+				fmt.Printf("return #%d: %s\n", i, strings.Join(ge.ReturnAtoms(fn, i), "  |  "))
+			}
+		}
 		return
 	}
 	run, ok := registry[*prop]
